@@ -10,8 +10,9 @@
 (*   [a |-> "boot", tags |-> << [t |-> n, v |-> string], ... >>]               *)
 (*        serf.Create with conf.Tags (tag n is called "tag<n>" in the driver;  *)
 (*        a tag not listed is missing)                                         *)
-(*   [a |-> "deliver", lt, id, name, ack, nb, fs]                              *)
+(*   [a |-> "deliver", lt, id, name, ack, nb, fs, xf]                          *)
 (*        NotifyMsg(messageQuery{LTime lt, ID id, Name name, Flags, Filters})  *)
+(*        xf = further (undefined) bits set in Flags                           *)
 (*        name = sequence of letters; fs = sequence of filter records          *)
 (*   filter record [k, ty, names, tag, pat]                                    *)
 (*        k = "node"    type byte 0 + msgpack list of node names (tokens;      *)
@@ -157,8 +158,12 @@ FGarbage(ty)  == F("garbage", ty, <<>>, 0, NoPat)
 FUnknown(v)   == F("unknown", v, <<>>, 0, NoPat)
 FEmpty        == F("empty", 0, <<>>, 0, NoPat)
 
-Q(lt, id, name, ack, nb, fs) ==
-  [a |-> "deliver", lt |-> lt, id |-> id, name |-> name, ack |-> ack, nb |-> nb, fs |-> fs]
+\* xf: positions of further bits set in the uint32 Flags word (only bit 0 = ack and bit 1 = no-broadcast
+\* are defined; the others must not matter).  Ids are compared for equality only; the driver concretises
+\* 0 -> 0, 900 -> 2^32-1, 901 -> 2^31 (boundary values of the uint32 wire field), any other id -> itself.
+QX(lt, id, name, ack, nb, fs, xf) ==
+  [a |-> "deliver", lt |-> lt, id |-> id, name |-> name, ack |-> ack, nb |-> nb, fs |-> fs, xf |-> xf]
+Q(lt, id, name, ack, nb, fs) == QX(lt, id, name, ack, nb, fs, <<>>)
 
 NmApp      == <<"q">>
 NmPing     == <<"_", "s", "e", "r", "f", "_", "p", "i", "n", "g">>
